@@ -191,5 +191,15 @@ class KnownFindings(Base):
         self.assertNotIn(Ab + b"p:2|", listed)
 
 
+    @unittest.expectedFailure
+    def test_known_C16_link_missed_when_an_end_changes_webentity_during_walk(self):
+        WE1 = [A, S, Aw, Sw]
+        LONG = A + long_stem(149)
+        trace = [1, 1, 1, 1, 1, 2, 2, 2, 2, 0, 0, 0, 0, 0, 0, 0, 0, 0, 2, 2, 2, 1, 1, 1]
+        t, res = self._interleave(lambda t: t.get_webentity_pagelinks_iter(1, WE1, include_inbound=True, include_internal=True, include_outbound=True), trace)
+        # Az -> LONG qualified at every step boundary (first as internal, then as inbound)
+        self.assertIn((Az, LONG), {(a, b) for a, b, w in res[2]})
+
+
 if __name__ == "__main__":
     unittest.main()
